@@ -54,7 +54,7 @@ func (e *Engine) funcValue(fn *ssa.Function, bindings []Value) Value {
 func (e *Engine) globalPtr(g *ssa.Global) Value {
 	id, ok := e.globals[g]
 	if !ok {
-		id = rodataStart/2 + uint64(len(e.globals)+1)
+		id = globalStart + uint64(len(e.globals)+1)
 		e.globals[g] = id
 	}
 	pt := g.Type().(*types.Pointer)
@@ -502,6 +502,12 @@ func (e *Engine) valuesEqual(st *State, x, y Value) *smt.Term {
 			return e.floatPred("feq", xt, x.L[0], y.L[0])
 		}
 		if u.Kind() == types.UnsafePointer {
+			if len(y.L) == 0 || isNilConst(y) {
+				return c.Eq(x.L[0], e.k64(0))
+			}
+			if len(x.L) == 0 || isNilConst(x) {
+				return c.Eq(y.L[0], e.k64(0))
+			}
 			return c.And(c.Eq(x.L[0], y.L[0]), c.Eq(x.L[1], y.L[1]))
 		}
 		if len(x.L) == 0 || len(y.L) == 0 {
